@@ -188,9 +188,10 @@ def run(ctx):
         if not same:
             ctx.corr_fail("twin %s vs model %s" % (str(got)[:200], str(m)[:200]), case)
     # the kernels REGENERATED from the current .pyx: an Err of a checked access <=> IndexError of the twin
-    gen = [(r, c, g) for r, (c, g) in zip(reqs, pend) if r["fn"] in FN2]
+    gen = [(r, c, g) for r, (c, g) in zip(reqs, pend) if r["fn"] in FN2 or r["fn"] == "union_many"]
     try:
-        gans = ctx.model.run([{"fn": r["fn"], "l": r["l"], "r": r["r"]} for r, _c, _g in gen], driver="Driver/KernGen.lean")
+        gans = ctx.model.run([({"fn": "union_many", "arrays": r["arrays"]} if r["fn"] == "union_many" else
+                               {"fn": r["fn"], "l": r["l"], "r": r["r"]}) for r, _c, _g in gen], driver="Driver/KernGen.lean")
     except core.ModelBroken as e:
         ctx.corr_fail("the kernel model regenerated from set_operations.pyx does not build/run: %s" % str(e)[-400:], {"translator": True})
         return
